@@ -1981,7 +1981,7 @@ class Denormalize(Transform):
         scale = jax.tree_util.tree_map(lambda _min, _max: (_max - _min) / 2, min_params, max_params)
         zero_filter = jax.tree_util.tree_map(lambda _scale: _scale == 0.0, scale)
         try:
-            if onp.array(jax.tree_util.tree_reduce(jnp.logical_or, zero_filter)).all():
+            if onp.array(jax.tree_util.tree_reduce(jnp.logical_or, jax.tree_util.tree_map(jnp.any, zero_filter))).all():
                 raise ValueError(
                     "The scale cannot be zero. Hint: Check if there are leafs with 'True' in the following zero_filter: "
                     f"{zero_filter}"
